@@ -368,6 +368,8 @@ package reftable
 //@   ensures typ == 'r' ==> istype(result, *RefRecord)
 //@   ensures typ == 'o' ==> istype(result, *objRecord)
 //@   ensures typ == 'i' ==> istype(result, *indexRecord)
+//@   ensures[key-of-the-empty-record] {C02} (typ == 'r' || typ == 'o' || typ == 'i') ==> keyOf(result) == ""
+//@   ensures[key-of-the-empty-log-record] {C02} typ == 'g' ==> keyOf(result) == logKey("", 0)
 //@   modifies nothing
 
 //@ func newBlockReader
@@ -571,6 +573,11 @@ package reftable
 // what the reader's section table says, in terms of the view
 //@ spec opaque tabMH(r *Reader, typ byte) bool = tabM(r) && (typ == 'r' || typ == 'g' || typ == 'o') && (r.offsets[typ].IndexOffset > 0 ==> tIsBlk(r, r.offsets[typ].IndexOffset) && tTyp(r, r.offsets[typ].IndexOffset) == 'i' && tSec(r, r.offsets[typ].IndexOffset) == typ && tTop(r, r.offsets[typ].IndexOffset) && !tHasPrev(r, r.offsets[typ].IndexOffset)) && (r.offsets[typ].Present ==> tIsBlk(r, r.offsets[typ].Offset) && tTyp(r, r.offsets[typ].Offset) == typ && !tHasPrev(r, r.offsets[typ].Offset))
 
+//@ func lemmaSeekModelConsistent
+//@   props C02
+//@   requires tabMH(r, 'r') && r.offsets['r'].Present && r.offsets['r'].IndexOffset > 0 && i != nil && i.r == r && landedTI(i, key) && tTyp(r, i.blockOff) == 'i' && tSec(r, i.blockOff) == 'r' && tCnt(r, i.blockOff) >= 2 && tHasNext(r, i.blockOff) && tiPos(i) == 1 && i.bi.br.restartCount >= 1
+//@   pure
+
 //@ spec wfReader(r *Reader) bool = r != nil && r.src != nil && (r.hashSize == 20 || r.hashSize == 32) && (r.version == 1 || r.version == 2) && r.size < 9223372036854775808
 //@ spec recMatches(rec record, typ byte) bool = iref(rec) != 0 && ((typ == 'r' && istype(rec, *RefRecord)) || (typ == 'g' && istype(rec, *LogRecord)) || (typ == 'o' && istype(rec, *objRecord)) || (typ == 'i' && istype(rec, *indexRecord)))
 //@ spec wfTI(i *tableIter) bool = i != nil && wfReader(i.r) && wfBI(i.bi) && typeOK(i.bi.br)
@@ -701,6 +708,12 @@ package reftable
 //@   ensures result1 == nil && result0 != nil ==> fresh(result0)
 //@   ensures result1 == nil && result0 != nil ==> wfTI(result0)
 //@   ensures result1 == nil && result0 != nil ==> result0.typ == typOf(rec)
+//@   ensures[c02:ref-lands-on-the-first-record-at-or-after-the-key] {C02} result1 == nil && result0 != nil && istype(rec, *RefRecord) && tabMH(r, 'r') && r.offsets['r'].Present ==> result0.r == r && (landedTI(result0, keyOf(rec)) || (keyOf(rec) == "" && startTI(result0) && tTyp(r, result0.blockOff) == 'r'))
+//@   ensures[c02:ref-finds-nothing-only-if-every-key-is-below] {C02} result1 == nil && result0 == nil && istype(rec, *RefRecord) && tabMH(r, 'r') && r.offsets['r'].Present ==> allBelow(r, 'r', keyOf(rec))
+//@   ensures[c02:log-lands-on-the-first-record-at-or-after-the-key] {C02} result1 == nil && result0 != nil && istype(rec, *LogRecord) && tabMH(r, 'g') && r.offsets['g'].Present ==> result0.r == r && (landedTI(result0, keyOf(rec)) || (keyOf(rec) == logKey("", 0) && startTI(result0) && tTyp(r, result0.blockOff) == 'g'))
+//@   ensures[c02:log-finds-nothing-only-if-every-key-is-below] {C02} result1 == nil && result0 == nil && istype(rec, *LogRecord) && tabMH(r, 'g') && r.offsets['g'].Present ==> allBelow(r, 'g', keyOf(rec))
+//@   ensures[c02:obj-lands-on-the-first-record-at-or-after-the-key] {C02} result1 == nil && result0 != nil && istype(rec, *objRecord) && tabMH(r, 'o') && r.offsets['o'].Present ==> result0.r == r && (landedTI(result0, keyOf(rec)) || (keyOf(rec) == "" && startTI(result0) && tTyp(r, result0.blockOff) == 'o'))
+//@   ensures[c02:obj-finds-nothing-only-if-every-key-is-below] {C02} result1 == nil && result0 == nil && istype(rec, *objRecord) && tabMH(r, 'o') && r.offsets['o'].Present ==> allBelow(r, 'o', keyOf(rec))
 
 //@ func (*Reader).seekIndexed
 //@   props C18 C19
@@ -725,18 +738,23 @@ package reftable
 //@   nopanic
 //@   modifies buflen, bufdata, lastDelta, lastSought, seekOn, seekName, seekIdx, yielded, stream
 //@   ensures result1 == nil ==> result0 != nil
+//@   ensures[c02:ref-lands-on-the-first-record-at-or-after-the-key-or-is-empty-because-every-key-is-below] {C02} result1 == nil && istype(rec, *RefRecord) && tabMH(r, 'r') ==> (istype(result0, *tableIter) && asptr(result0, *tableIter).r == r && (landedTI(asptr(result0, *tableIter), keyOf(rec)) || (keyOf(rec) == "" && startTI(asptr(result0, *tableIter)) && tTyp(r, asptr(result0, *tableIter).blockOff) == 'r'))) || (istype(result0, *emptyIterator) && (!r.offsets['r'].Present || allBelow(r, 'r', keyOf(rec))))
+//@   ensures[c02:log-lands-on-the-first-record-at-or-after-the-key-or-is-empty-because-every-key-is-below] {C02} result1 == nil && istype(rec, *LogRecord) && tabMH(r, 'g') ==> (istype(result0, *tableIter) && asptr(result0, *tableIter).r == r && (landedTI(asptr(result0, *tableIter), keyOf(rec)) || (keyOf(rec) == logKey("", 0) && startTI(asptr(result0, *tableIter)) && tTyp(r, asptr(result0, *tableIter).blockOff) == 'g'))) || (istype(result0, *emptyIterator) && (!r.offsets['g'].Present || allBelow(r, 'g', keyOf(rec))))
+//@   ensures[c02:obj-lands-on-the-first-record-at-or-after-the-key-or-is-empty-because-every-key-is-below] {C02} result1 == nil && istype(rec, *objRecord) && tabMH(r, 'o') ==> (istype(result0, *tableIter) && asptr(result0, *tableIter).r == r && (landedTI(asptr(result0, *tableIter), keyOf(rec)) || (keyOf(rec) == "" && startTI(asptr(result0, *tableIter)) && tTyp(r, asptr(result0, *tableIter).blockOff) == 'o'))) || (istype(result0, *emptyIterator) && (!r.offsets['o'].Present || allBelow(r, 'o', keyOf(rec))))
 
 //@ func (*Reader).SeekRef
 //@   props C18 C19
 //@   requires wfReader(r)
 //@   nopanic
 //@   modifies buflen, bufdata, lastDelta, lastSought, seekOn, seekName, seekIdx, yielded, stream
+//@   ensures[c02:lands-on-the-first-ref-at-or-after-the-name-or-is-empty-because-every-name-is-below] {C02} result1 == nil && tabMH(r, 'r') ==> result0 != nil && ((istype(result0.impl, *tableIter) && asptr(result0.impl, *tableIter).r == r && (landedTI(asptr(result0.impl, *tableIter), name) || (name == "" && startTI(asptr(result0.impl, *tableIter)) && tTyp(r, asptr(result0.impl, *tableIter).blockOff) == 'r'))) || (istype(result0.impl, *emptyIterator) && (!r.offsets['r'].Present || allBelow(r, 'r', name))))
 
 //@ func (*Reader).SeekLog
 //@   props C18 C19
 //@   requires wfReader(r)
 //@   nopanic
 //@   modifies buflen, bufdata, lastDelta, lastSought, seekOn, seekName, seekIdx, yielded, stream
+//@   ensures[c02:lands-on-the-newest-entry-at-or-below-the-update-index-or-is-empty-because-every-key-is-below] {C02} result1 == nil && tabMH(r, 'g') ==> result0 != nil && ((istype(result0.impl, *tableIter) && asptr(result0.impl, *tableIter).r == r && (landedTI(asptr(result0.impl, *tableIter), logKey(name, updateIndex)) || (logKey(name, updateIndex) == logKey("", 0) && startTI(asptr(result0.impl, *tableIter)) && tTyp(r, asptr(result0.impl, *tableIter).blockOff) == 'g'))) || (istype(result0.impl, *emptyIterator) && (!r.offsets['g'].Present || allBelow(r, 'g', logKey(name, updateIndex)))))
 
 //@ func (*Reader).RefsFor
 //@   props C18 C19 C11
